@@ -1,0 +1,26 @@
+//go:build verif
+
+// Contracts for the pverif VC generator (see /verif/DESIGN.md). Comment-only.
+package symbolizer
+
+// validmode: the demangler modes Symbolize can produce from any option string.
+//@ spec macro func validmode(m string) bool = m == "" || m == "templates" || m == "full" || m == "none"
+
+// C09: the internal-consistency panic of demanglerModeToOptions is unreachable from Symbolize, whatever
+// the mode string: Symbolize only passes "", "full", "none" or "templates".
+//@ func demanglerModeToOptions
+//@   requires validmode(demanglerMode)
+//@ func Demangle
+//@   requires prof != nil && validmode(demanglerMode)
+//@   requires forall i int :: 0 <= i && i < len(prof.Function) ==> prof.Function[i] != nil
+//@   loop 1
+//@     invariant prof != nil && validmode(demanglerMode)
+//@     invariant forall i int :: 0 <= i && i < len(prof.Function) ==> prof.Function[i] != nil
+//@   loop 2
+//@     invariant prof != nil
+//@     invariant forall i int :: 0 <= i && i < len(prof.Function) ==> prof.Function[i] != nil
+//@ func Symbolizer.Symbolize
+//@   requires s != nil && s.UI != nil && p != nil
+//@   requires forall i int :: 0 <= i && i < len(p.Function) ==> p.Function[i] != nil
+//@   loop 1
+//@     invariant s != nil && s.UI != nil && p != nil && validmode(demanglerMode)
